@@ -507,16 +507,25 @@ def check_call(net, kw, vs, where, tag):
 
 
 def history_cases(tier):
+    """a history is a sequence of steps; a step is an optional edit followed by one pipeflow call"""
     depth = 2 if tier == "quick" else 3
-    ops = [("call", i) for i in range(len(CALLS))] + [("edit", e) for e in EDIT_OPS]
+    calls = list(range(len(CALLS))) if tier == "thorough" else [0, 1, 2, 3, 6, 8]
+    edits = [None] + EDIT_OPS
+    steps = [(e, c) for e in edits for c in calls]
+    if tier == "thorough":
+        # depth 3 with the full menu is too large: third step restricted to the plain calls without edit
+        third = [(None, c) for c in (0, 1, 2)] + [(e, 0) for e in EDIT_OPS]
     out = []
     for netname in NETS:
         for h in range(1, depth + 1):
-            for seq in itertools.product(range(len(ops)), repeat=h):
-                # a history must end with a call; skip histories whose last op is an edit
-                if ops[seq[-1]][0] != "call":
-                    continue
-                out.append({"part": "c", "net": netname, "ops": [list(ops[i]) for i in seq]})
+            menus = [steps] * min(h, 2) + ([third] if h == 3 else [])
+            for seq in itertools.product(*menus):
+                ops = []
+                for e, c in seq:
+                    if e is not None:
+                        ops.append(["edit", e])
+                    ops.append(["call", c])
+                out.append({"part": "c", "net": netname, "ops": ops})
     return out
 
 
